@@ -4,8 +4,11 @@ Conventions of the code under test (docstring of generate_derivative_operators +
 ordered column-major, 1D index i = ix * ny + iy, ix grows with x (= R), iy grows *downwards* (the first voxel
 of a column is the top one, y = Z decreases with iy).  With grids built that way Dy is +d/dy of the physical y.
 """
+import collections
+import copy
 import math
 import os
+import types
 
 import numpy as np
 from hypothesis import strategies as st
@@ -14,6 +17,7 @@ from ..core import Given
 from ..findings import is_open
 
 from cherab.tools.inversions.admt_utils import generate_derivative_operators, calculate_admt
+import cherab.tools.inversions as _pkg
 
 ID = "C20"
 KNOWN = "C20-dnorm-cx"
@@ -133,7 +137,9 @@ def psi_terms(p, box):
     # plane (+ bounded perturbation):  g (cos th X + sin th Y) + pert,  |grad pert| <= kappa * |g| on the box
     g, th = p["g"], p["theta"]
     xc, yc = 0.5 * (xl + xr), 0.5 * (yb + yt)
-    terms = [{"k": "poly2", "xr": xc, "yr": yc, "c0": p.get("c0", 0.0), "a": g * math.cos(th), "b": g * math.sin(th),
+    ca, sa = math.cos(th), math.sin(th)
+    ca, sa = (0.0 if abs(ca) < 1e-15 else ca), (0.0 if abs(sa) < 1e-15 else sa)   # axis-aligned maps: exact zero component
+    terms = [{"k": "poly2", "xr": xc, "yr": yc, "c0": p.get("c0", 0.0), "a": g * ca, "b": g * sa,
               "qxx": 0.0, "qxy": 0.0, "qyy": 0.0}]
     if kind == "quad":
         cx, cy = xl + p["cx"] * Lx, yb + p["cy"] * Ly
@@ -238,11 +244,39 @@ _PI = math.pi
 
 
 @st.composite
-def grid_strategy(draw, lo=2, hi=12):
+def grid_strategy(draw, lo=2, hi=12, any_x=False):
+    """any_x=True (derivative operators only, they never divide by R): x origin anywhere, also straddling 0."""
     small = st.integers(lo, min(hi, 4))
-    n = st.one_of(small, st.integers(lo, hi))
-    return {"nx": draw(n), "ny": draw(n), "dx": draw(_log10(-3, 1)), "dy": draw(_log10(-3, 1)),
-            "rho": draw(st.one_of(st.floats(0.05, 2.0), st.floats(0.05, 40.0))), "tau": draw(st.floats(-40.0, 40.0))}
+    n = st.one_of(small, st.integers(lo, hi), st.sampled_from([lo, hi]))
+    nx, ny = draw(n), draw(n)
+    dx = draw(st.one_of(_log10(-3, 1), st.sampled_from([1.0, 0.01, 2.0, 0.5])))
+    dy = draw(st.one_of(_log10(-3, 1), st.just(dx), st.sampled_from([1.0, 0.01])))
+    # Z of the top row centre = dy*tau: anywhere / a row centre exactly on Z=0 / rows symmetric about 0 / straddling asymmetrically
+    tau = draw(st.one_of(st.floats(-40.0, 40.0), st.integers(0, ny - 1).map(float), st.just((ny - 1) / 2.0),
+                         st.floats(-0.45, ny - 0.55)))
+    rho = st.one_of(st.floats(0.05, 2.0), st.floats(0.05, 40.0), st.sampled_from([0.5, 1.5, 0.05]))
+    if any_x:   # column centre k sits at x = dx*(0.5+rho+k)
+        rho = st.one_of(rho, st.floats(-40.0, 40.0), st.integers(0, nx - 1).map(lambda k: -0.5 - k),
+                        st.just(-0.5 - (nx - 1) / 2.0), st.floats(-nx + 0.05, -0.55))
+    return {"nx": nx, "ny": ny, "dx": dx, "dy": dy, "rho": draw(rho), "tau": tau}
+
+
+def _grid_labels(ctx, g):
+    nx, ny, rho, tau = int(g["nx"]), int(g["ny"]), float(g["rho"]), float(g["tau"])
+    if -0.5 < tau < ny - 0.5:
+        ctx.label("z:straddles0")
+        if tau == int(tau):
+            ctx.label("z:centre_on_0")
+        elif tau != (ny - 1) / 2.0:
+            ctx.label("z:asymmetric_about_0")
+    if -nx < rho < -0.5:
+        ctx.label("x:straddles0")
+    if g["dx"] == g["dy"]:
+        ctx.label("dx==dy")
+    if min(nx, ny) == 2:
+        ctx.label("n=2")
+    if max(nx, ny) == 12:
+        ctx.label("n=12")
 
 
 @st.composite
@@ -258,7 +292,7 @@ def psi_strategy(draw, kmax, margin_min, y_free):
         return {"kind": kind, "amp": draw(_signed(0.1, 10.0)), "s": draw(st.floats(0.3, 0.9)),
                 "kap": 0.0 if y_free else draw(st.floats(0.0, 3.0)), "off": draw(st.floats(-1.0, 2.0))}
     p = {"kind": kind, "g": draw(_signed(0.1, 10.0)), "c0": draw(st.floats(-10.0, 10.0)),
-         "theta": 0.0 if y_free else draw(st.one_of(st.sampled_from([0.0, _PI / 2, _PI / 4, -_PI / 4]), st.floats(-_PI, _PI)))}
+         "theta": 0.0 if y_free else draw(st.one_of(st.sampled_from([0.0, _PI / 2, _PI / 4, -_PI / 4, _PI, -_PI / 2, 0.3]), st.floats(-_PI, _PI)))}
     if kind == "quad":
         p["kappa"] = draw(st.floats(0.05, 0.4))
         p["cx"], p["cy"] = draw(st.floats(-1.0, 2.0)), draw(st.floats(-1.0, 2.0))
@@ -273,18 +307,24 @@ def psi_strategy(draw, kmax, margin_min, y_free):
     return p
 
 
-_aniso = st.one_of(st.integers(2, 100), st.floats(1.0, 100.0), st.floats(1.0, 3.0), st.sampled_from([10, 1.0000001, 100.0]))
+_aniso = st.one_of(st.integers(2, 100), st.floats(1.0, 100.0), st.floats(1.0, 3.0), st.sampled_from([10, 10.0, 2, 100.0, 1.5]))
+_near1 = st.sampled_from([1.0 + 1e-9, 1.0 + 2.0 ** -52, 1.0 + 1e-12, 1.0 + 1e-7, 1.000001])
 
 
 def _anisotropy(draw):
-    return draw(st.sampled_from([1, 1.0])) if draw(st.booleans()) else draw(_aniso)
+    k = draw(st.integers(0, 9))
+    if k < 4:
+        return draw(st.sampled_from([1, 1.0]))
+    if k == 4:
+        return draw(_near1)       # continuity at 1
+    return draw(_aniso)
 
 
 @st.composite
 def stencil_strategy(draw):
     c = st.floats(-10.0, 10.0)
     nz = _signed(0.1, 10.0)
-    return {"grid": draw(grid_strategy()), "ref": [draw(st.floats(-1.0, 2.0)), draw(st.floats(-1.0, 2.0))],
+    return {"grid": draw(grid_strategy(any_x=True)), "ref": [draw(st.floats(-1.0, 2.0)), draw(st.floats(-1.0, 2.0))],
             "c0": draw(c), "const": draw(_signed(0.01, 100.0)), "poly": [draw(nz) for _ in range(5)]}
 
 
@@ -301,9 +341,15 @@ def _excluded():
 def admt_strategy(draw):
     aniso = _anisotropy(draw)
     # finite / annihilates-constants hold for every flux map even with the finding open; only the anisotropy-1 identity fails
-    y_free = _excluded() and float(aniso) == 1.0
+    y_free = _excluded() and abs(float(aniso) - 1.0) <= 1e-6
+    nz = _signed(0.1, 10.0)
     return {"grid": draw(grid_strategy()), "psi": draw(psi_strategy(6.0, 0.2, y_free)), "aniso": aniso,
-            "const": draw(_signed(0.1, 100.0))}
+            "const": draw(_signed(0.1, 100.0)),
+            # psi -> c*psi leaves the flux surfaces (hence the operator) unchanged
+            "pscale": draw(st.one_of(st.sampled_from([1e-2, 1e-3, 1e-4, 1e-5, 1e-6, -1.0, 0.5, 1e3, -1e-6]), _log10(-6, 3),
+                                     _log10(-6, 3).map(lambda v: -v))),
+            # quadratic test field (exactness in interior cells when the flux map is a plane)
+            "ref": [draw(st.floats(-1.0, 2.0)), draw(st.floats(-1.0, 2.0))], "poly": [draw(nz) for _ in range(5)]}
 
 
 @st.composite
@@ -328,8 +374,7 @@ def run_stencils(case, ctx):
     interior = grid["interior"]
     ctx.label("interior" if interior.any() else "no_interior")
     ctx.label("nx!=ny" if nx != ny else "square")
-    if nx == 2 or ny == 2:
-        ctx.label("2-wide")
+    _grid_labels(ctx, case["grid"])
     ctx.nt(True)     # all of a..e are non-zero by construction
     xr = box[0] + case["ref"][0] * (box[1] - box[0])
     yr = box[2] + case["ref"][1] * (box[3] - box[2])
@@ -368,9 +413,9 @@ def _psi_class(p):
     return "plane" if p["kind"] == "plane" else "curved"
 
 
-def _admt(ctx, grid, ops, psi, dx, dy, aniso, n):
+def _admt(ctx, grid, ops, psi, dx, dy, aniso, n, radii=None):
     with ctx.cut("calculate_admt"):
-        A = calculate_admt(grid["x"].copy(), ops, psi, dx, dy, anisotropy=aniso)
+        A = calculate_admt(grid["x"].copy() if radii is None else radii, ops, psi, dx, dy, anisotropy=aniso)
     A = np.asarray(A)
     ctx.check(A.shape == (n, n), "admt-shape", lambda: "operator has shape %s for %d cells" % (A.shape, n))
     ctx.check(bool(np.all(np.isfinite(A))), "admt-finite",
@@ -378,27 +423,76 @@ def _admt(ctx, grid, ops, psi, dx, dy, aniso, n):
     return A
 
 
+def _psi_cond(ops, psi, dx, dy):
+    """max|psi| / (min discrete |grad psi| * min(dx,dy)): amplification of a relative perturbation eps of the psi samples
+    into the direction of the discrete gradient and into psi''/|grad psi| * h."""
+    g = np.hypot(ops["Dx"] @ psi, ops["Dy"] @ psi)
+    return float(np.max(np.abs(psi)) / (np.min(g) * min(dx, dy)))
+
+
+_EPS = 2.220446049250313e-16
+
+
 def run_admt(case, ctx):
     nx, ny, dx, dy, grid, box = _grid_from_case(case["grid"])
     n = nx * ny
     aniso = case["aniso"]
     iso = float(aniso) == 1.0
+    near = (not iso) and abs(float(aniso) - 1.0) <= 1e-6
     cls = _psi_class(case["psi"])
-    ctx.label("%s:%s" % ("iso" if iso else "aniso", cls), "psi:" + case["psi"]["kind"])
-    if _excluded() and iso:
+    kind = case["psi"]["kind"]
+    ctx.label("%s:%s" % ("iso" if iso else "near1" if near else "aniso", cls), "psi:" + kind)
+    ctx.label("aniso:%s" % ("int" if isinstance(aniso, int) else "float"))
+    _grid_labels(ctx, case["grid"])
+    if _excluded() and (iso or near):
         ctx.label("excluded_known:psi_depends_on_y")
-    ctx.nt(cls == "curved")
+    ctx.nt(cls == "curved" or (not iso and int(grid["interior"].sum()) >= 4))
     ops = _operators(ctx, grid, n)
-    psi = _terms_eval(psi_terms(case["psi"], box), grid["x"], grid["y"])[0]
+    terms = psi_terms(case["psi"], box)
+    psi = _terms_eval(terms, grid["x"], grid["y"])[0]
+    gx, gy = ops["Dx"] @ psi, ops["Dy"] @ psi
+    if bool(np.any(gx == 0.0)) or bool(np.any(gy == 0.0)):
+        ctx.label("psi:zero_component")
     A = _admt(ctx, grid, ops, psi, dx, dy, aniso, n)
+    nA = _norm(A)
+    desc = "(anisotropy %r, %s flux map, %dx%d grid)" % (aniso, kind, nx, ny)
     cval = float(case["const"])
-    ctx.close(A @ np.full(n, cval), np.zeros(n), "admt-constant", rtol=0.0, atol=1e-9 * _norm(A) * abs(cval),
-              info="(anisotropy %r, %s flux map, %dx%d)" % (aniso, case["psi"]["kind"], nx, ny))
+    ctx.close(A @ np.full(n, cval), np.zeros(n), "admt-constant", rtol=0.0, atol=1e-9 * nA * abs(cval), info=desc)
+    ref = (ops["Dxx"] + ops["Dyy"] + ops["Dx"] / grid["x"][:, None]) * math.sqrt(dx * dy)
     if iso:
-        ref = (ops["Dxx"] + ops["Dyy"] + ops["Dx"] / grid["x"][:, None]) * math.sqrt(dx * dy)
         ctx.close(A, ref, "admt-iso-laplacian", rtol=1e-9, scale=_norm(ref),
-                  info="(anisotropy 1 must give (Dxx+Dyy+Dx/R)*sqrt(dx dy); %s flux map, %dx%d grid, flat index = row*%d+col)"
-                       % (case["psi"]["kind"], nx, ny, n))
+                  info="anisotropy 1 must give (Dxx+Dyy+Dx/R)*sqrt(dx dy) %s, flat index = row*%d+col" % (desc, n))
+    elif near:
+        # the operator is P + Q/anisotropy with ||Q|| <= a few ||ref||: Lipschitz-continuous at anisotropy 1
+        ctx.close(A, ref, "admt-continuity-at-1", rtol=1e-9 + 50.0 * abs(float(aniso) - 1.0), scale=_norm(ref),
+                  info="anisotropy -> 1 must tend to (Dxx+Dyy+Dx/R)*sqrt(dx dy) %s" % desc)
+    # ---- psi -> c*psi: same flux surfaces, same operator (every anisotropy)
+    c = float(case.get("pscale", 1.0))
+    if c != 1.0:
+        ctx.label("pscale:%s" % ("negative" if c < 0 else "<=1e-2" if c <= 1e-2 else "other"))
+        As = _admt(ctx, grid, ops, psi * c, dx, dy, aniso, n)
+        ctx.close(As, A, "admt-psi-scale", rtol=0.0, atol=nA * (1e-9 + 100 * _EPS * _psi_cond(ops, psi, dx, dy)),
+                  info="psi -> %g*psi changed the operator %s" % (c, desc))
+    # ---- plane flux map (constant D, oblique to the axes in general): exact for quadratic f in interior cells
+    inn = grid["interior"]
+    if kind == "plane" and int(inn.sum()) >= 4 and "poly" in case:
+        th = float(case["psi"]["theta"])
+        obl = min(abs(math.sin(th)), abs(math.cos(th))) > 0.05
+        ctx.label("plane-quadratic:%s:%s" % ("iso" if iso else "aniso", "oblique" if obl else "aligned"))
+        xr = box[0] + case["ref"][0] * (box[1] - box[0])
+        yr = box[2] + case["ref"][1] * (box[3] - box[2])
+        a_, b_, c_, d_, e_ = [float(v) for v in case["poly"]]
+        f_t = [{"k": "poly2", "xr": xr, "yr": yr, "c0": cval, "a": a_, "b": b_, "qxx": 2 * d_, "qxy": c_, "qyy": 2 * e_}]
+        f = _terms_eval(f_t, grid["x"], grid["y"])[0]
+        s = math.sqrt(dx * dy)
+        got = (A @ f)[inn] / s
+        want, scale = continuous_operator(terms, f_t, grid["x"][inn], grid["y"][inn], float(aniso))
+        lam = 1.0 if iso else float(np.dot(got, want) / np.dot(want, want))   # normalisation for anisotropy != 1: see ASSUMPTIONS
+        tol = (1e-9 + 100 * _EPS * _psi_cond(ops, psi, dx, dy)) * nA * float(np.max(np.abs(f))) / s
+        ctx.check(lam > 0, "admt-plane-quadratic", lambda: "fitted normalisation %r <= 0 %s" % (lam, desc))
+        ctx.close(got, lam * want, "admt-plane-quadratic", rtol=0.0, atol=tol,
+                  info="L@f/sqrt(dx dy) is not lambda*[D_ij f_ij + D_xj f_j/R] (lambda=%.6g, theta=%g) for quadratic f in interior cells %s"
+                       % (lam, th, desc))
 
 
 # ------------------------------------------------------------------------------------------------ (c) refinement
@@ -455,8 +549,210 @@ def run_refine(case, ctx):
                   lambda: "error does not shrink >= 1.6x from level %d to %d %s" % (k, k + 1, desc))
 
 
+
+# ------------------------------------------------------------------------------------------------ (d) input forms, re-use, caller-owned data
+V_FORMS = ["ndarray", "list", "tuple", "fortran", "strided", "readonly", "float32", "int"]      # last two: integer grids only (exact)
+M_FORMS = ["dict", "reversed", "shuffled", "ordered", "proxy"]
+A_FORMS = ["f64", "strided", "readonly", "list", "f32", "int"]     # radii; psi has no "list" (the code needs .shape); "int": integer grids
+O_FORMS = ["dict", "reordered+extra", "fortran", "readonly", "ordered"]
+S_FORMS = ["float", "npfloat", "int"]                               # dx, dy scalars; "int": integer grids (test_admt.py passes ints)
+CALLS = ["kw", "pos", "allkw", "default"]                           # default: anisotropy omitted (documented default 10)
+
+
+@st.composite
+def forms_strategy(draw):
+    integer = draw(st.booleans())
+    if integer:   # integer coordinates: every dtype conversion is exact
+        nx, ny = draw(st.integers(2, 7)), draw(st.integers(2, 7))
+        dx, dy = draw(st.sampled_from([2, 4])), draw(st.sampled_from([2, 4, 6]))
+        grid = {"int": True, "nx": nx, "ny": ny, "dx": dx, "dy": dy, "x0": draw(st.integers(1, 40)) + dx // 2,
+                "ytop": draw(st.integers(-20, 20))}
+    else:
+        grid = draw(grid_strategy(hi=8))
+    pick = lambda forms, n_general: st.sampled_from(forms if integer else forms[:n_general])   # noqa: E731
+    call = draw(st.sampled_from(CALLS))
+    a0 = 10 if call == "default" else _anisotropy(draw)
+    return {"grid": grid, "vform": draw(pick(V_FORMS, 6)), "mform": [draw(st.sampled_from(M_FORMS)), draw(st.sampled_from(M_FORMS))],
+            "mseed": draw(st.integers(0, 2 ** 31)), "rform": draw(pick(A_FORMS, 5)),
+            "pform": draw(pick([f for f in A_FORMS if f != "list"], 4)), "oform": draw(st.sampled_from(O_FORMS)),
+            "sform": draw(pick(S_FORMS, 2)), "call": call, "aniso": a0, "aniso2": _anisotropy(draw),
+            "psi": draw(psi_strategy(4.0, 0.3, _excluded())), "ipsi": [draw(st.integers(-9, 9)), draw(st.sampled_from([-7, -2, 1, 3, 8]))],
+            "psi2": draw(psi_strategy(4.0, 0.3, _excluded()))}
+
+
+def _perm(n, seed):
+    """Deterministic Fisher-Yates permutation from an integer seed (no RNG state inside run)."""
+    idx, x = list(range(n)), (seed * 2654435761 + 12345) % (1 << 32)
+    for i in range(n - 1, 0, -1):
+        x = (x * 1664525 + 1013904223) % (1 << 32)
+        j = x % (i + 1)
+        idx[i], idx[j] = idx[j], idx[i]
+    return idx
+
+
+def _map_form(m, form, seed):
+    items = list(m.items())
+    if form == "reversed":
+        return dict(reversed(items))
+    if form == "shuffled":
+        return dict(items[i] for i in _perm(len(items), seed))
+    if form == "ordered":
+        return collections.OrderedDict(items[i] for i in _perm(len(items), seed + 1))
+    if form == "proxy":
+        return types.MappingProxyType(dict(items))
+    return dict(items)
+
+
+def _array_form(a, form):
+    """Same values, other container / dtype / memory layout."""
+    a = np.asarray(a)
+    if form == "strided":
+        big = np.zeros(a.shape[:-1] + (2 * a.shape[-1],), dtype=a.dtype)
+        big[..., ::2] = a
+        return big[..., ::2]
+    if form == "fortran":
+        return np.asfortranarray(a)
+    if form == "readonly":
+        b = a.copy()
+        b.setflags(write=False)
+        return b
+    if form == "list":
+        return a.tolist()
+    if form == "tuple":
+        return tuple(tuple(tuple(float(c) for c in v) for v in cell) for cell in a.tolist())
+    if form == "f32" or form == "float32":
+        return a.astype(np.float32)
+    if form == "int":
+        return a.astype(np.int64)
+    return a.copy()
+
+
+def _same(a, b):
+    """bit-identical, also for nested lists/tuples and mappings."""
+    if isinstance(a, np.ndarray):
+        return isinstance(b, np.ndarray) and a.dtype == b.dtype and a.shape == b.shape and bool(np.array_equal(a, b))
+    if isinstance(a, collections.abc.Mapping):
+        return list(a.items()) == list(b.items())
+    return a == b
+
+
+def run_forms(case, ctx):
+    g = case["grid"]
+    integer = bool(g.get("int"))
+    if integer:
+        nx, ny, dx, dy = int(g["nx"]), int(g["ny"]), int(g["dx"]), int(g["dy"])
+        grid = build_grid(nx, ny, float(dx), float(dy), float(g["x0"]), float(g["ytop"]))
+        box = (g["x0"] - dx / 2, g["x0"] + (nx - 0.5) * dx, g["ytop"] - (ny - 0.5) * dy, g["ytop"] + dy / 2)
+    else:
+        nx, ny, dx, dy, grid, box = _grid_from_case(g)
+    n = nx * ny
+    vform, rform, pform, oform, sform, call = case["vform"], case["rform"], case["pform"], case["oform"], case["sform"], case["call"]
+    if not integer:   # replayed / shrunk cases: forms that are only exact on integer grids fall back to float64
+        vform = "ndarray" if vform in ("float32", "int") else vform
+        rform, pform = ("f64" if rform == "int" else rform), ("f64" if pform == "int" else pform)
+        sform = "float" if sform == "int" else sform
+    ctx.label("grid:%s" % ("integer" if integer else "general"), "vertices:" + vform, "map12:" + case["mform"][0], "map21:" + case["mform"][1],
+              "radii:" + rform, "psi:" + pform, "operators:" + oform, "dxdy:" + sform, "call:" + call, "entry:generate_derivative_operators",
+              "entry:calculate_admt")
+    ctx.nt(True)
+    ctx.check(_pkg.generate_derivative_operators is generate_derivative_operators and _pkg.calculate_admt is calculate_admt,
+              "package-export", "cherab.tools.inversions does not export the admt_utils functions")
+    ctx.label("entry:package-export")
+    # ---------------- canonical float64 forms
+    ops0 = _operators(ctx, grid, n)
+    if pform == "int":    # integer-valued plane on the integer grid
+        p_, q_ = case["ipsi"]
+        psi64 = p_ * grid["x"] + q_ * grid["y"]
+    else:
+        psi64 = _terms_eval(psi_terms(case["psi"], box), grid["x"], grid["y"])[0]
+        if pform == "f32":
+            psi64 = psi64.astype(np.float32).astype(np.float64)
+    R64 = grid["x"].copy()
+    if rform == "f32":    # the radii argument is independent of the vertices: use float32-representable radii on both sides
+        R64 = R64.astype(np.float32).astype(np.float64)
+    a0, a2 = case["aniso"], case["aniso2"]
+    A0 = _admt(ctx, grid, ops0, psi64, float(dx), float(dy), a0, n, radii=R64.copy())
+    tolA = 1e-12 * _norm(A0)
+    # ---------------- generate_derivative_operators: other container / dtype / layout / key orders
+    verts = _array_form(grid["verts"], vform)
+    m12 = _map_form(grid["m12"], case["mform"][0], case["mseed"])
+    m21 = _map_form(grid["m21"], case["mform"][1], case["mseed"] + 7)
+    keep = (copy.deepcopy(verts), list(m12.items()), list(m21.items()))
+    with ctx.cut("generate_derivative_operators[%s]" % vform):
+        if call in ("pos", "default"):
+            ops1 = generate_derivative_operators(verts, m12, m21)
+        else:
+            ops1 = generate_derivative_operators(voxel_vertices=verts, grid_index_1d_to_2d_map=m12, grid_index_2d_to_1d_map=m21)
+    ctx.check(_same(verts, keep[0]) and list(m12.items()) == keep[1] and list(m21.items()) == keep[2], "caller-owned",
+              "generate_derivative_operators modified its arguments (vertices %s)" % vform)
+    for k in ("Dx", "Dy", "Dxx", "Dxy", "Dyy"):
+        ctx.close(ops1[k], ops0[k], "form:%s" % k, rtol=1e-12, scale=_norm(ops0[k]),
+                  info="(vertices as %s, maps as %s: result differs from the float64 ndarray / plain dict form)" % (vform, case["mform"]))
+    with ctx.cut("generate_derivative_operators(second call)"):
+        ops1b = generate_derivative_operators(verts, m12, m21)
+    for k in ops1:
+        ctx.check(bool(np.array_equal(ops1[k], ops1b[k])) and not np.shares_memory(ops1[k], ops1b[k]), "reuse-operators",
+                  "second call with the same arguments: %s differs from / shares memory with the first result" % k)
+    # ---------------- calculate_admt: forms
+    if oform == "reordered+extra":
+        opsf = {"junk": None, "Dyy": ops1["Dyy"], "Dxy": ops1["Dxy"], "Dy": ops1["Dy"], "Dxx": ops1["Dxx"], "Dx": ops1["Dx"]}
+    elif oform == "ordered":
+        opsf = collections.OrderedDict((k, ops1[k]) for k in ("Dxy", "Dx", "Dyy", "Dy", "Dxx"))
+    elif oform in ("fortran", "readonly"):
+        opsf = {k: _array_form(v, oform) for k, v in ops1.items()}
+    else:
+        opsf = ops1
+    radii = _array_form(R64, rform)
+    psi = _array_form(psi64, pform)
+    sx, sy = (dx, dy) if sform == "int" else (np.float64(dx), np.float64(dy)) if sform == "npfloat" else (float(dx), float(dy))
+    snap_ops = {k: np.array(opsf[k], copy=True) for k in ("Dx", "Dy", "Dxx", "Dxy", "Dyy")}
+    snap_in = (copy.deepcopy(radii), psi.copy())
+
+    def call_admt(psi_, aniso_):
+        if call == "default":
+            return calculate_admt(radii, opsf, psi_, sx, sy)
+        if call == "pos":
+            return calculate_admt(radii, opsf, psi_, sx, sy, aniso_)
+        if call == "allkw":
+            return calculate_admt(voxel_radii=radii, derivative_operators=opsf, psi_at_voxels=psi_, dx=sx, dy=sy, anisotropy=aniso_)
+        return calculate_admt(radii, opsf, psi_, sx, sy, anisotropy=aniso_)
+
+    with ctx.cut("calculate_admt[%s,%s,%s,%s,%s]" % (rform, pform, oform, sform, call)):
+        A1 = np.asarray(call_admt(psi, a0))
+    desc = "(radii %s, psi %s, operators %s, dx/dy %s, call %s, anisotropy %r)" % (rform, pform, oform, sform, call, a0)
+    ctx.close(A1, A0, "form:admt", rtol=0.0, atol=tolA, info="result differs from the canonical float64 call " + desc)
+    A1_snap = A1.copy()
+    # ---------------- re-use of the same operators for other flux maps / anisotropies; first result intact; repeat is bit-identical
+    psi_b = _terms_eval(psi_terms(case["psi2"], box), grid["x"], grid["y"])[0]
+    with ctx.cut("calculate_admt(re-use)"):
+        A2 = np.asarray(call_admt(psi_b, a2))
+        A2c = np.asarray(calculate_admt(R64, ops0, psi_b, float(dx), float(dy), anisotropy=(10 if call == "default" else a2)))
+        A3 = np.asarray(call_admt(psi, a0))
+    ctx.close(A2, A2c, "reuse:second-call", rtol=0.0, atol=1e-12 * _norm(A2c),
+              info="second call on the same operators (other flux map, anisotropy %r) differs from a fresh computation" % (a2,))
+    ctx.check(bool(np.array_equal(A1, A1_snap)), "reuse:first-result-intact", "first result changed after a second call " + desc)
+    ctx.check(not np.shares_memory(A1, A2) and not np.shares_memory(A1, A3), "reuse:aliasing", "results of separate calls share memory")
+    ctx.check(bool(np.array_equal(A3, A1_snap)), "reuse:repeat", "repeating the first call does not reproduce it bit for bit " + desc)
+    # ---------------- caller-owned data untouched; later modification by the caller does not leak into results
+    ctx.check(_same(radii, snap_in[0]) and _same(psi, snap_in[1]), "caller-owned", "calculate_admt modified radii / psi " + desc)
+    for k in snap_ops:
+        ctx.check(bool(np.array_equal(np.asarray(opsf[k]), snap_ops[k])), "caller-owned", "calculate_admt modified operator %s %s" % (k, desc))
+        ctx.check(not np.shares_memory(A1, np.asarray(opsf[k])), "caller-owned", "result aliases operator %s" % k)
+    ops_snap = {k: np.array(ops1[k], copy=True) for k in ops1}
+    if isinstance(verts, np.ndarray) and verts.flags.writeable:
+        verts[...] = 0
+    if isinstance(psi, np.ndarray) and psi.flags.writeable:
+        psi[...] = 0
+    if isinstance(radii, np.ndarray) and radii.flags.writeable:
+        radii[...] = 1
+    for k in ops1:
+        ctx.check(bool(np.array_equal(ops1[k], ops_snap[k])), "caller-owned", "operator %s changed when the caller overwrote the vertex array" % k)
+    ctx.check(bool(np.array_equal(A1, A1_snap)), "caller-owned", "ADMT operator changed when the caller overwrote psi / radii " + desc)
+
+
 SUBCHECKS = {
     "stencils": Given(stencil_strategy, run_stencils, quick=1200, thorough=30000),
     "admt": Given(admt_strategy, run_admt, quick=1200, thorough=30000),
     "refine": Given(refine_strategy, run_refine, quick=160, thorough=2400),
+    "forms": Given(forms_strategy, run_forms, quick=800, thorough=16000),
 }
